@@ -1759,6 +1759,12 @@ class H2Connection:
             f = self._refuse_pushed_stream(frame.promised_stream_id)
             return [f], events
 
+        # Closed streams are only forgotten when the open streams are counted.
+        # Do that here as well: otherwise a peer that promises (and closes)
+        # one stream after the other makes the stream table grow without
+        # bound, as nothing else counts streams while we send no new request.
+        self._open_streams(int(not self.config.client_side))
+
         new_stream = self._begin_new_stream(
             frame.promised_stream_id, AllowedStreamIDs.EVEN
         )
